@@ -27,10 +27,11 @@ import Uft.Model.ElfSym
      Q <tid> <time> <addr>     task_find_sym_addr     -> sid/sym
    dlrec <fixed 0|1> <stampAtSend 0|1> | ev | ev ...    (record-time dlopen model, Model/DlRecord.lean)
      IM <namehex> <start> <stop>                      a session map (mcount_sym_info at start-up)
-     LD <namehex> <realhex> <bias> <start> <stop>     the loader maps an object
+     LD <namehex> <realhex> <bias> <start> <stop> <sym>...   the loader maps an object (with its symbol table)
      TK <dt> / CL <addr> / EN <w> <fnamehex> / LV <w> <handle> / XC <handle> <start>...
-                                              -> M <namehex>@<bias>... | S <namehex|->...   (messages in
-                                                 the order sent; for every CL the library it is shown in)
+                                              -> M <namehex>@<bias>... | S <symhex@namehex@bias|->...   (messages
+                                                 in the order sent; for every CL the symbol it is shown as and the
+                                                 message it is resolved with)
    elfload <off> | <value>:<size>:<info>:<shndx>:<namehex> ...   load_symtab (filter, sort, dedup) -> table
    elfmerge | <table> | <table>                       merge_symtabs(symtab, dynsymtab) -> table
 -/
@@ -199,10 +200,10 @@ def dlrecEv (cfg : Cfg) (st : St) (op : List String) : Option St :=
     | some n, some a, some b =>
       some { st with maps := st.maps ++ [{ name := n, start := a, stop := b, handle := none, live := true }] }
     | _, _, _ => none
-  | ["LD", n, r, b, s, e] =>
-    match parseChars n, parseChars r, parseHexNat b, parseHexNat s, parseHexNat e with
-    | some n, some r, some b, some s, some e => some (step cfg st (.load n r b s e))
-    | _, _, _, _, _ => none
+  | "LD" :: n :: r :: b :: s :: e :: tab =>
+    match parseChars n, parseChars r, parseHexNat b, parseHexNat s, parseHexNat e, parseTable tab with
+    | some n, some r, some b, some s, some e, some t => some (step cfg st (.load n r b s e t))
+    | _, _, _, _, _, _ => none
   | ["TK", d] => (parseHexNat d).map (fun d => step cfg st (.tick d))
   | ["CL", a] => (parseHexNat a).map (fun a => step cfg st (.call a))
   | ["EN", w, f] =>
@@ -219,6 +220,14 @@ def dlrecEv (cfg : Cfg) (st : St) (op : List String) : Option St :=
     | _, _ => none
   | _ => none
 
+/-- `libOf` with the library name and load address appended to every symbol name, so that the driver
+    can print which message a record was resolved with (`session_find_dlsym` looks at names only to
+    drop the `__sym_end` markers, which the harness tables do not contain) -/
+def libOfTagged (m : Uft.DlRecord.Msg) : DlLib :=
+  let l := Uft.DlRecord.libOf m
+  { l with syms := l.syms.map (fun s =>
+      { s with name := (showChars s.name ++ "@" ++ showChars m.name ++ "@" ++ showHex m.bias).toList }) }
+
 open Uft.DlRecord in
 def dlrec (fixed atSend : String) (ops : List (List String)) : String :=
   let cfg : Cfg := { fixed := fixed == "1", stampAtSend := atSend == "1" }
@@ -227,8 +236,9 @@ def dlrec (fixed atSend : String) (ops : List (List String)) : String :=
   | none => "bad-op"
   | some st =>
     let ms := st.msgs.map (fun m => showChars m.name ++ "@" ++ showHex m.bias)
-    let ss := st.recs.map (fun r => match shownIn st.msgs r.time r.addr with
-                                    | some n => showChars n
+    let libs := st.msgs.foldl (fun acc m => addDlopen acc (libOfTagged m)) []
+    let ss := st.recs.map (fun r => match findDlsym libs r.time r.addr with
+                                    | some s => String.ofList s.name
                                     | none => "-")
     "M " ++ " ".intercalate ms ++ " | S " ++ " ".intercalate ss
 
